@@ -6,7 +6,10 @@ os.makedirs(common.WORK, exist_ok=True)
 ok, o = common.regen()
 print('regen:', ok); 
 if not ok: print(o); sys.exit(1)
-ok, o = common.lake_build([])
+import glob
+mods = sorted('Netpoll.' + d + '.' + os.path.basename(f)[:-5] for d in ('Props', 'Tie')
+              for f in glob.glob(os.path.join(common.LEAN, 'Netpoll', d, '*.lean')))
+ok, o = common.lake_build(['Netpoll', 'npdriver'] + mods)   # default targets + every property / tie module
 print(o[-1500:])
 if not ok: sys.exit(1)
 for name in sorted(os.listdir(os.path.join(common.GO, 'cmd'))):
